@@ -44,12 +44,14 @@ impl Runner {
     fn n_items(&self, ctx: &Ctx, prop: &str) -> usize {
         match prop {
             p if LIB_PROPS.contains(&p) => props::libprops::n_items(self.work.as_ref().unwrap(), ctx, prop),
+            "C04" => props::c04::n_items(ctx),
             _ => 0,
         }
     }
     fn run_item(&self, ctx: &mut Ctx, prop: &str, i: usize) {
         match prop {
             p if LIB_PROPS.contains(&p) => props::libprops::run_item(self.work.as_ref().unwrap(), ctx, prop, i),
+            "C04" => props::c04::run_item(ctx, i),
             _ => {}
         }
     }
@@ -138,6 +140,8 @@ fn replay(args: &[String]) -> i32 {
                         pinned: true,
                     };
                     props::libprops::check(&mut ctx, &prop, &ev);
+                } else if prop == "C04" {
+                    props::c04::replay(&mut ctx, &case);
                 }
                 println!("{}", serde_json::to_string_pretty(&json!({"findings": ctx.findings, "evaluations": ctx.evals})).unwrap());
                 if ctx.findings.is_empty() { 0 } else { 1 }
